@@ -42,6 +42,11 @@ class Frame:
     def exc_cls(self):
         return self.new.fld("__class__", Val.a(self.exc.t))
 
+    def all_same(self, except_=()):
+        """the whole heap is unchanged (no effect at all)"""
+        return z3.And(*[self.new.heap[c] == self.old.heap[c] for c in self.new.heap
+                        if c not in except_ and c not in ("w_dict", "mycalls") and not c.startswith("fld:cell:")])
+
     def same(self, *comps_):
         """listed heap components are identical in old and new"""
         return z3.And(*[self.new.heap[c] == self.old.heap[c] for c in comps_])
@@ -110,6 +115,17 @@ class FnSpec:
         return []
 
     def raises(self, F: Frame):
+        return []
+
+    def pure_when(self, F: Frame):
+        """condition over the entry state under which the call has no effect on any existing object (or None)"""
+        return None
+
+    def local_ensures(self, F: Frame):
+        """verification-only clauses about this activation itself (write log, own call counts, path trace)"""
+        return []
+
+    def local_raises(self, F: Frame):
         return []
 
     def call_site_extra(self, F: Frame):
